@@ -117,6 +117,16 @@ def distribution(scenarios, observations):
     return d
 
 
+# ---- JSON half of C04: a sub-suite with its own case type (harness/props/C04json.py, coq/CorrC04json.v) ----
+from harness.props import C04json  # noqa: E402
+SUBSUITES = {"json": C04json}
+
+
+def extra_checks(ctx):
+    from harness import core
+    return core.run_subsuite(C04json, ctx)
+
+
 MANIFEST = {
     "level_text": "Machine-checked proof (Coq 8.16) about an executable model of the XMI writer (worklist of _find_all_fs, "
                   "per-feature-kind encoders in the writer's branch order, offset mapping, namespace/prefix allocation, "
